@@ -10,12 +10,12 @@
 
 int shim_hash_available = 1;
 void* shim_hash_new(size_t digest_size) {
-  hash_context* c = malloc(sizeof(hash_context));
+  hash_context* c = aligned_alloc(64, (sizeof(hash_context) + 63) & ~(size_t)63);
   hash_init(c, digest_size);
   return c;
 }
 void* shim_hash_new_prefix(size_t digest_size, uint8_t prefix) {
-  hash_context* c = malloc(sizeof(hash_context));
+  hash_context* c = aligned_alloc(64, (sizeof(hash_context) + 63) & ~(size_t)63);
   hash_init_prefix(c, digest_size, prefix);
   return c;
 }
@@ -28,12 +28,12 @@ void shim_hash_free(void* c) {
   free(c);
 }
 void* shim_hash4_new(size_t digest_size) {
-  hash_context_x4* c = malloc(sizeof(hash_context_x4));
+  hash_context_x4* c = aligned_alloc(64, (sizeof(hash_context_x4) + 63) & ~(size_t)63);
   hash_init_x4(c, digest_size);
   return c;
 }
 void* shim_hash4_new_prefix(size_t digest_size, uint8_t prefix) {
-  hash_context_x4* c = malloc(sizeof(hash_context_x4));
+  hash_context_x4* c = aligned_alloc(64, (sizeof(hash_context_x4) + 63) & ~(size_t)63);
   hash_init_prefix_x4(c, digest_size, prefix);
   return c;
 }
